@@ -1,6 +1,6 @@
 """what MANIFEST.json claims per property (tools/mkmanifest.py turns this into the manifest)"""
 
-FIX_COMMITS = ['0369c7c', 'e5963ae', '7c0fb30', '7b59f02']
+FIX_COMMITS = ['0369c7c', 'e5963ae', '7c0fb30', '7b59f02', '74366c8', 'b68f84c']
 
 _NOTE = ('bounded: holds for every value of the symbolic inputs inside the boxes and sizes '
          'listed in the evidence file, nothing is claimed outside; trusted: CPython, z3, the '
@@ -47,6 +47,34 @@ CLAIMS = {
                 'entry), symbolic body/child durations, nested until-blocks and run(till=T): each '
                 'path proves exit == min(trigger model, completion) and that later waits are '
                 'exact; the trigger model is the independent clock model of C01.',
+        'note': _NOTE,
+    },
+    'C09': {
+        'text': 'Arrival and hold times of up to 3 contenders, nesting depth, re-request and one '
+                'fault (cancel / until-interrupt / close) at a symbolic instant (c,p) with both '
+                'attacker placements are explored to path closure; mutual exclusion, FIFO grants, '
+                'availability (sampled at every activation) and final freeness are proved per path '
+                'from the log the contenders write.',
+        'note': _NOTE,
+    },
+    'C10': {
+        'text': 'Put / get / close dates, consumer kinds and one fault at (c,p) on producer or '
+                'consumer are symbolic; every path proves exactly-once delivery, put order, '
+                'receiver order and close semantics from the log.',
+        'note': _NOTE,
+    },
+    'C11': {
+        'text': 'Subscription, put and close dates, consumer kinds, a slow consumer and one fault '
+                'on a consumer are symbolic; every path proves that each consumer saw exactly the '
+                'accepted puts logged after its own subscription, in order, in the time step of '
+                'the put.',
+        'note': _NOTE,
+    },
+    'C12': {
+        'text': 'Capacities, amounts, arrival/hold times, modifier date/amount and the fault '
+                'instant (c,p) (p up to 3-4 covers each postponement inside acquire and release) '
+                'are symbolic; the conservation bounds are proved as SMT obligations at every '
+                'activation boundary of every path, equality with the supply at quiescence.',
         'note': _NOTE,
     },
 }
